@@ -72,6 +72,12 @@ type fieldGen struct {
 	tags2  []string // tags added in v2 (only meaningful when inV1)
 	feats  []string // features of the v1 tag set (or of the added field)
 	feats2 []string // features added in v2 on an existing field
+	// generated mix-in struct (mixin.go): emb is set, kind.typ is built from sub on demand
+	mixin    bool
+	anon     bool        // anonymous embedding (otherwise a named field tagged `embedded`)
+	sub      []*fieldGen // the mix-in's own fields
+	shadowOf *fieldGen   // (sub field) the field that owns this field's column
+	tieIn    string      // (sub field with a column of its own) name of its mix-in
 }
 
 func (f *fieldGen) tag(v2 bool) string {
@@ -113,6 +119,11 @@ type model struct {
 	idx    []*idxExp
 	chk    []*chkExp
 	uniq   []*uniqExp
+	// declared ONLY by a shadowed field of a mix-in (the field owning the column declares none)
+	shadowChk  []*chkExp
+	shadowUniq []*uniqExp
+	respelled  int // tag keys written with blanks / in another letter case
+	mixins     []*fieldGen
 }
 
 func (m *model) addIdx(name string, unique bool, col string, expr, partial, v2 bool) {
@@ -140,6 +151,10 @@ func (m *model) structType(v2 bool) reflect.Type {
 			continue
 		}
 		st := reflect.StructField{Name: f.goName, Type: f.kind.typ}
+		if f.mixin {
+			st.Type = f.mixType()
+			st.Anonymous = f.anon
+		}
 		if t := f.tag(v2); t != "" {
 			st.Tag = reflect.StructTag(`gorm:"` + t + `"`)
 		}
@@ -155,6 +170,12 @@ func (m *model) describe(v2 bool) []string {
 			continue
 		}
 		s := fmt.Sprintf("%s %s", f.goName, f.kind.name)
+		if f.mixin {
+			s = f.goName + " " + f.mixText()
+			if f.anon {
+				s = f.mixText() + "  /* anonymous embedding, field name " + f.goName + " */"
+			}
+		}
 		if t := f.tag(v2); t != "" {
 			s += " `gorm:\"" + t + "\"`"
 		}
@@ -560,6 +581,21 @@ func genModel(r *core.Rand, n int) *model {
 	if r.Chance(1, 3) {
 		m.composite(r, all, true)
 	}
+	// last, so that every tag of the outer fields is known: a generated mix-in (mixin.go)
+	var free []nameCol
+	for _, k := range names[nv1+nv2:] {
+		free = append(free, namePool[k])
+	}
+	if r.Chance(1, 3) {
+		n := m.genMixin(r, free)
+		if r.Chance(1, 4) {
+			m.genMixin(r, free[n:])
+		}
+	}
+	m.reorder(r)
+	if r.Bool() {
+		m.respell(r)
+	}
 	return m
 }
 
@@ -578,7 +614,9 @@ func (m *model) features() (v1, add []string) {
 			for _, x := range f.feats {
 				s2["new:"+x] = true
 			}
-			if f.emb {
+			if f.mixin {
+				s2["new:mixin"] = true
+			} else if f.emb {
 				s2["new:emb"] = true
 			} else {
 				s2["new:k:"+f.class] = true
